@@ -346,128 +346,326 @@ theorem cs_vars_le (h : Feasible (buildLP i kind) x) (hon : i.addCs = true)
 
 end Bounds
 
+/-! ### seaweed harvest -/
+
+section Seaweed
+variable {i : Inp K} {kind : Kind} {x : Var → K} {m : Nat}
+
+/-- what leaves the farm in month `m ≥ 1` is at most `swCap i m` -/
+theorem seaweed_harvest_le (h : Feasible (buildLP i kind) x) (hon : i.addSeaweed = true)
+    (hminD : 0 ≤ i.minDensity) (hhl : 0 ≤ i.harvestLoss) (hg : -100.0 ≤ at' i.growth m)
+    (hm : m < i.nmonths) (hm0 : m ≠ 0) :
+    grossUp (x (.mv .swHumans m)) i.wSeaweed + x (.mv .swFeed m) + x (.mv .swBiofuel m)
+      ≤ swCap i m := by
+  have hl := seaweed_ledger h hon hm hm0
+  obtain ⟨-, b2, -, b4⟩ := seaweed_bounds (m := m - 1) h hon (by omega)
+  have w0 := h.2 (.mv .swWet m)
+  have a0 := h.2 (.mv .usedArea m)
+  unfold seaweedLedger at hl
+  unfold swCap
+  have hG : 0 ≤ 1 + at' i.growth m / 100.0 := by
+    rw [sci_100] at hg ⊢
+    have : -1 ≤ at' i.growth m / 100 := by
+      rw [le_div_iff₀ (by norm_num)]; linarith
+    linarith
+  have hc : 0 ≤ i.minDensity * (i.harvestLoss / 100.0) :=
+    mul_nonneg hminD (div_nonneg hhl (by rw [sci_100]; norm_num))
+  generalize 1 + at' i.growth m / 100.0 = G at *
+  generalize i.harvestLoss / 100.0 = hl' at *
+  have h1 := mul_le_mul_of_nonneg_right b2 hG
+  have h2 := mul_le_mul_of_nonneg_right b4 hc
+  have h3 := mul_nonneg a0 hc
+  nlinarith
+
+theorem seaweed_harvest_vars_le (h : Feasible (buildLP i kind) x) (hon : i.addSeaweed = true)
+    (hw0 : 0 ≤ i.wSeaweed) (hw : i.wSeaweed < 100.0)
+    (hminD : 0 ≤ i.minDensity) (hhl : 0 ≤ i.harvestLoss) (hg : -100.0 ≤ at' i.growth m)
+    (hm : m < i.nmonths) (hm0 : m ≠ 0) :
+    x (.mv .swHumans m) ≤ swCap i m ∧ x (.mv .swFeed m) ≤ swCap i m ∧
+      x (.mv .swBiofuel m) ≤ swCap i m := by
+  have hu := seaweed_harvest_le h hon hminD hhl hg hm hm0
+  have h1 := le_grossUp hw0 hw (h.2 (.mv .swHumans m))
+  have h2 := grossUp_nonneg hw (h.2 (.mv .swHumans m))
+  have h3 := h.2 (.mv .swFeed m)
+  have h4 := h.2 (.mv .swBiofuel m)
+  refine ⟨?_, ?_, ?_⟩ <;> linarith
+
+end Seaweed
+
+/-! ### the bounds the checker uses -/
+
+theorem capOf_valid (i : Inp K) (kind : Kind) (x : Var → K) (hw : WellFormed i)
+    (h : Feasible (buildLP i kind) x) (k : VK) (m : Nat) (hm : m < i.nmonths) (u : K)
+    (hu : capOf i k m = some u) : x (.mv k m) ≤ u := by
+  obtain ⟨⟨hS0, hS⟩, ⟨hC0, hC⟩, ⟨hM0, hM⟩, ⟨hP0, hP⟩, ⟨hZ0, hZ⟩, ⟨hW0, hW⟩, -, -, hminD, hhl, -, hgr⟩ := hw
+  unfold capOf at hu
+  cases k <;> simp only at hu
+    · -- sfStart
+      split_ifs at hu with hc
+      · obtain rfl := Option.some.inj hu
+        simp only [Bool.and_eq_true, Bool.or_eq_true, decide_eq_true_eq] at hc
+        exact sfStart_le h hc.1 hS hm hc.2
+    · -- sfEnd
+      split_ifs at hu with hc
+      · obtain rfl := Option.some.inj hu
+        simp only [Bool.and_eq_true, Bool.or_eq_true, decide_eq_true_eq] at hc
+        exact sfEnd_le h hc.1 hS hm hc.2
+    · split_ifs at hu with hoff hreg
+      · obtain rfl := Option.some.inj hu
+        have hon : i.addStored = true := by simpa using hoff
+        exact (stored_parts_le h hon hS0 hS hm).1
+      · obtain rfl := Option.some.inj hu
+        have hon : i.addStored = true := by simpa using hoff
+        simp only [Bool.or_eq_true, decide_eq_true_eq, not_or, Bool.not_eq_true, not_le] at hreg
+        exact (stored_vars_zero h hon hreg.1 hm hreg.2).1.le
+    · split_ifs at hu with hoff hreg
+      · obtain rfl := Option.some.inj hu
+        have hon : i.addStored = true := by simpa using hoff
+        exact (stored_parts_le h hon hS0 hS hm).2.1
+      · obtain rfl := Option.some.inj hu
+        have hon : i.addStored = true := by simpa using hoff
+        simp only [Bool.or_eq_true, decide_eq_true_eq, not_or, Bool.not_eq_true, not_le] at hreg
+        exact (stored_vars_zero h hon hreg.1 hm hreg.2).2.1.le
+    · split_ifs at hu with hoff hreg
+      · obtain rfl := Option.some.inj hu
+        have hon : i.addStored = true := by simpa using hoff
+        exact (stored_parts_le h hon hS0 hS hm).2.2
+      · obtain rfl := Option.some.inj hu
+        have hon : i.addStored = true := by simpa using hoff
+        simp only [Bool.or_eq_true, decide_eq_true_eq, not_or, Bool.not_eq_true, not_le] at hreg
+        exact (stored_vars_zero h hon hreg.1 hm hreg.2).2.2.le
+    · split_ifs at hu with hon
+      · obtain rfl := Option.some.inj hu
+        exact (scp_vars_le h hon hP0 hP hm).1
+    · split_ifs at hu with hon
+      · obtain rfl := Option.some.inj hu
+        exact (scp_vars_le h hon hP0 hP hm).2.1
+    · split_ifs at hu with hon
+      · obtain rfl := Option.some.inj hu
+        exact (scp_vars_le h hon hP0 hP hm).2.2
+    · split_ifs at hu with hon
+      · obtain rfl := Option.some.inj hu
+        exact (cs_vars_le h hon hZ0 hZ hm).1
+    · split_ifs at hu with hon
+      · obtain rfl := Option.some.inj hu
+        exact (cs_vars_le h hon hZ0 hZ hm).2.1
+    · split_ifs at hu with hon
+      · obtain rfl := Option.some.inj hu
+        exact (cs_vars_le h hon hZ0 hZ hm).2.2
+    · split_ifs at hu with hc
+      · obtain rfl := Option.some.inj hu
+        simp only [Bool.and_eq_true] at hc
+        exact (meat_vars_le h hc.1 hc.2 hM0 hM hm).1
+    · split_ifs at hu with hc
+      · obtain rfl := Option.some.inj hu
+        simp only [Bool.and_eq_true] at hc
+        exact (meat_vars_le h hc.1 hc.2 hM0 hM hm).2.1
+    · -- meatEaten
+      split_ifs at hu with hoff hs
+      · obtain rfl := Option.some.inj hu
+        have hon : i.addMeat = true := by simpa using hoff
+        exact (meat_vars_le h hon hs hM0 hM hm).2.2
+      · obtain rfl := Option.some.inj hu
+        have hon : i.addMeat = true := by simpa using hoff
+        have hs' : i.storeBetweenYears = false := by simpa using hs
+        exact meatEaten_le_slaughtered h hon hs' hM0 hM hm
+    · split_ifs at hu with hon
+      · obtain rfl := Option.some.inj hu
+        exact (crop_vars_le h hon hC0 hC hm).1
+    · split_ifs at hu with hon
+      · obtain rfl := Option.some.inj hu
+        exact (crop_vars_le h hon hC0 hC hm).2.1
+    · split_ifs at hu with hon
+      · obtain rfl := Option.some.inj hu
+        exact (crop_vars_le h hon hC0 hC hm).2.2.1
+    · split_ifs at hu with hon
+      · obtain rfl := Option.some.inj hu
+        exact (crop_vars_le h hon hC0 hC hm).2.2.2.1
+    · split_ifs at hu with hon
+      · obtain rfl := Option.some.inj hu
+        exact (crop_vars_le h hon hC0 hC hm).2.2.2.2
+    · -- swWet
+      split_ifs at hu with hon
+      · obtain rfl := Option.some.inj hu
+        exact (seaweed_bounds h hon hm).2.1
+    · split_ifs at hu with hoff hm0
+      · obtain rfl := Option.some.inj hu
+        have hon : i.addSeaweed = true := by simpa using hoff
+        subst hm0
+        exact (seaweed_month_zero h hon hm).2.2.1.le
+      · obtain rfl := Option.some.inj hu
+        have hon : i.addSeaweed = true := by simpa using hoff
+        exact (seaweed_harvest_vars_le h hon hW0 hW hminD hhl (hgr m hm) hm hm0).1
+    · split_ifs at hu with hoff hm0
+      · obtain rfl := Option.some.inj hu
+        have hon : i.addSeaweed = true := by simpa using hoff
+        subst hm0
+        exact (seaweed_month_zero h hon hm).2.2.2.1.le
+      · obtain rfl := Option.some.inj hu
+        have hon : i.addSeaweed = true := by simpa using hoff
+        exact (seaweed_harvest_vars_le h hon hW0 hW hminD hhl (hgr m hm) hm hm0).2.1
+    · split_ifs at hu with hoff hm0
+      · obtain rfl := Option.some.inj hu
+        have hon : i.addSeaweed = true := by simpa using hoff
+        subst hm0
+        exact (seaweed_month_zero h hon hm).2.2.2.2.le
+      · obtain rfl := Option.some.inj hu
+        have hon : i.addSeaweed = true := by simpa using hoff
+        exact (seaweed_harvest_vars_le h hon hW0 hW hminD hhl (hgr m hm) hm hm0).2.2
+    · -- usedArea
+      split_ifs at hu with hon
+      · obtain rfl := Option.some.inj hu
+        exact (seaweed_bounds h hon hm).2.2.2
+    · -- consumedKcals
+      simp only [reduceCtorEq] at hu
+
+/-- what `humanSum` reads for a resource is within `capH` -/
+theorem capH_valid (i : Inp K) (kind : Kind) (x : Var → K) (hw : WellFormed i)
+    (h : Feasible (buildLP i kind) x) (on : Bool) (k : VK) (m : Nat) (hm : m < i.nmonths) (u : K)
+    (hu : capH i on k m = some u) : X x on k m ≤ u := by
+  unfold capH at hu
+  unfold X
+  cases on
+  · simp only [Bool.false_eq_true, if_false, Option.some.injEq] at hu ⊢
+    exact hu.le
+  · simp only [if_true] at hu ⊢
+    exact capOf_valid i kind x hw h k m hm u hu
+
+theorem consumedCap_valid (i : Inp K) (x : Var → K) (hw : WellFormed i)
+    (h : Feasible (buildLP i .toHumans) x) (m : Nat) (hm : m < i.nmonths) (u : K)
+    (hu : consumedCap i m = some u) : x (.mv .consumedKcals m) ≤ u := by
+  have hkc : 0 ≤ i.seaweedKcals := hw.2.2.2.2.2.2.2.2.2.2.1
+  unfold consumedCap at hu
+  split_ifs at hu with hb
+  cases h1 : capH i i.addStored .sfHumans m with
+  | none => simp only [h1, reduceCtorEq] at hu
+  | some a =>
+  cases h2 : capH i i.addOutdoor .cropHumans m with
+  | none => simp only [h1, h2, reduceCtorEq] at hu
+  | some b =>
+  cases h3 : capH i i.addSeaweed .swHumans m with
+  | none => simp only [h1, h2, h3, reduceCtorEq] at hu
+  | some c =>
+  cases h4 : capH i i.addMeat .meatEaten m with
+  | none => simp only [h1, h2, h3, h4, reduceCtorEq] at hu
+  | some d =>
+  cases h5 : capH i i.addCs .csHumans m with
+  | none => simp only [h1, h2, h3, h4, h5, reduceCtorEq] at hu
+  | some e =>
+  cases h6 : capH i i.addScp .scpHumans m with
+  | none => simp only [h1, h2, h3, h4, h5, h6, reduceCtorEq] at hu
+  | some f =>
+    simp only [h1, h2, h3, h4, h5, h6, Option.some.injEq] at hu
+    have g1 := capH_valid i .toHumans x hw h _ _ m hm a h1
+    have g2 := capH_valid i .toHumans x hw h _ _ m hm b h2
+    have g3 := capH_valid i .toHumans x hw h _ _ m hm c h3
+    have g4 := capH_valid i .toHumans x hw h _ _ m hm d h4
+    have g5 := capH_valid i .toHumans x hw h _ _ m hm e h5
+    have g6 := capH_valid i .toHumans x hw h _ _ m hm f h6
+    have g3' := mul_le_mul_of_nonneg_right g3 hkc
+    rw [kcals_fed h hm, eval_humanSum, ← hu, sci_100]
+    have hle : X x i.addStored .sfHumans m + X x i.addOutdoor .cropHumans m
+        + X x i.addSeaweed .swHumans m * i.seaweedKcals + at' i.milk m + X x i.addMeat .meatEaten m
+        + X x i.addCs .csHumans m + X x i.addScp .scpHumans m + at' i.greenhouse m + at' i.fish m
+        ≤ a + b + c * i.seaweedKcals + at' i.milk m + d + e + f + at' i.greenhouse m + at' i.fish m := by
+      linarith
+    exact mul_le_mul_of_nonneg_right (div_le_div_of_nonneg_right hle hb.le) (by norm_num)
+
+theorem foldl_add_le (f g : Nat → K) (l : List Nat) (a b : K) (hab : a ≤ b)
+    (h : ∀ m ∈ l, f m ≤ g m) :
+    l.foldl (fun acc m => acc + f m) a ≤ l.foldl (fun acc m => acc + g m) b := by
+  induction l generalizing a b with
+  | nil => exact hab
+  | cons m t ih =>
+    simp only [List.foldl_cons]
+    exact ih _ _ (add_le_add hab (h m List.mem_cons_self))
+      (fun k hk => h k (List.mem_cons_of_mem _ hk))
+
+theorem foldl_add_zero (f : Nat → K) (l : List Nat) (h : ∀ m ∈ l, f m = 0) :
+    l.foldl (fun acc m => acc + f m) 0 = 0 := by
+  induction l with
+  | nil => rfl
+  | cons m t ih =>
+    simp only [List.foldl_cons, h m List.mem_cons_self, add_zero]
+    exact ih (fun k hk => h k (List.mem_cons_of_mem _ hk))
+
+/-- the objective of the feed-maximising round is within the weighted ceilings -/
+theorem objective_toAnimals_le (i : Inp K) (x : Var → K) (h : Feasible (buildLP i .toAnimals) x) :
+    x .objective ≤
+      if anyFeedVar i then 2 / 3 * total i.maxFeed i.nmonths + total i.maxBiofuel i.nmonths / 3
+      else 0 := by
+  have hobj := objective_le_nonhuman h
+  rw [eval_nonhumanObjective] at hobj
+  by_cases hany : anyFeedVar i = true
+  · rw [if_pos hany]
+    have h1 : (List.range i.nmonths).foldl (fun acc m => acc + feedTotal i x m) 0
+        ≤ total i.maxFeed i.nmonths :=
+      foldl_add_le _ _ _ 0 0 le_rfl
+        (fun m hm => (feed_biofuel_le_ceiling h hany (List.mem_range.mp hm)).1)
+    have h2 : (List.range i.nmonths).foldl (fun acc m => acc + biofuelTotal i x m) 0
+        ≤ total i.maxBiofuel i.nmonths :=
+      foldl_add_le _ _ _ 0 0 le_rfl
+        (fun m hm => (feed_biofuel_le_ceiling h hany (List.mem_range.mp hm)).2)
+    linarith
+  · rw [if_neg hany]
+    rw [Bool.not_eq_true] at hany
+    have hoff : i.addStored = false ∧ i.addOutdoor = false ∧ i.addSeaweed = false ∧
+        i.addCs = false ∧ i.addScp = false := by
+      unfold anyFeedVar at hany
+      simp only [Bool.or_eq_false_iff] at hany
+      exact ⟨hany.1.1.1.1, hany.1.1.1.2, hany.1.1.2, hany.1.2, hany.2⟩
+    obtain ⟨o1, o2, o3, o4, o5⟩ := hoff
+    have hf : ∀ m, feedTotal i x m = 0 := by
+      intro m
+      simp only [feedTotal, X, o1, o2, o3, o4, o5, Bool.false_eq_true, if_false]
+      ring
+    have hb : ∀ m, biofuelTotal i x m = 0 := by
+      intro m
+      simp only [biofuelTotal, X, o1, o2, o3, o4, o5, Bool.false_eq_true, if_false]
+      ring
+    rw [foldl_add_zero _ _ (fun m _ => hf m), foldl_add_zero _ _ (fun m _ => hb m)] at hobj
+    linarith
+
 theorem ubOf_valid (i : Inp K) (kind : Kind) (x : Var → K) (hw : WellFormed i)
     (h : Feasible (buildLP i kind) x) : ∀ v u, ubOf i kind v = some u → x v ≤ u := by
-  obtain ⟨⟨hS0, hS⟩, ⟨hC0, hC⟩, ⟨hM0, hM⟩, ⟨hP0, hP⟩, ⟨hZ0, hZ⟩, ⟨hW0, hW⟩, -, -⟩ := hw
   intro v u hu
   cases v with
-  | objective => simp only [ubOf, reduceCtorEq] at hu
   | objectiveBest => simp only [ubOf, reduceCtorEq] at hu
+  | objective =>
+    cases kind with
+    | toHumans =>
+      simp only [ubOf] at hu
+      split_ifs at hu with hN
+      exact le_trans (objective_le_month h hN) (consumedCap_valid i x hw h 0 hN u hu)
+    | toAnimals =>
+      have hobj := objective_toAnimals_le i x h
+      simp only [ubOf] at hu
+      split_ifs at hu hobj with hany
+      · obtain rfl := Option.some.inj hu
+        have e1 : (2.0 : K) / 3.0 = 2 / 3 := by norm_num
+        have e2 : (3.0 : K) = 3 := by norm_num
+        rw [e1, e2]
+        exact hobj
+      · obtain rfl := Option.some.inj hu
+        exact hobj
   | mv k m =>
     unfold ubOf at hu
     by_cases hmN : i.nmonths ≤ m
     · simp only [hmN, if_true, reduceCtorEq] at hu
     · simp only [hmN, if_false] at hu
       have hm : m < i.nmonths := by omega
-      cases k <;> simp only at hu
-      · -- sfStart
-        split_ifs at hu with hc
-        · obtain rfl := Option.some.inj hu
-          simp only [Bool.and_eq_true, Bool.or_eq_true, decide_eq_true_eq] at hc
-          exact sfStart_le h hc.1 hS hm hc.2
-      · -- sfEnd
-        split_ifs at hu with hc
-        · obtain rfl := Option.some.inj hu
-          simp only [Bool.and_eq_true, Bool.or_eq_true, decide_eq_true_eq] at hc
-          exact sfEnd_le h hc.1 hS hm hc.2
-      · split_ifs at hu with hoff hreg
-        · obtain rfl := Option.some.inj hu
-          have hon : i.addStored = true := by simpa using hoff
-          exact (stored_parts_le h hon hS0 hS hm).1
-        · obtain rfl := Option.some.inj hu
-          have hon : i.addStored = true := by simpa using hoff
-          simp only [Bool.or_eq_true, decide_eq_true_eq, not_or, Bool.not_eq_true, not_le] at hreg
-          exact (stored_vars_zero h hon hreg.1 hm hreg.2).1.le
-      · split_ifs at hu with hoff hreg
-        · obtain rfl := Option.some.inj hu
-          have hon : i.addStored = true := by simpa using hoff
-          exact (stored_parts_le h hon hS0 hS hm).2.1
-        · obtain rfl := Option.some.inj hu
-          have hon : i.addStored = true := by simpa using hoff
-          simp only [Bool.or_eq_true, decide_eq_true_eq, not_or, Bool.not_eq_true, not_le] at hreg
-          exact (stored_vars_zero h hon hreg.1 hm hreg.2).2.1.le
-      · split_ifs at hu with hoff hreg
-        · obtain rfl := Option.some.inj hu
-          have hon : i.addStored = true := by simpa using hoff
-          exact (stored_parts_le h hon hS0 hS hm).2.2
-        · obtain rfl := Option.some.inj hu
-          have hon : i.addStored = true := by simpa using hoff
-          simp only [Bool.or_eq_true, decide_eq_true_eq, not_or, Bool.not_eq_true, not_le] at hreg
-          exact (stored_vars_zero h hon hreg.1 hm hreg.2).2.2.le
-      · split_ifs at hu with hon
-        · obtain rfl := Option.some.inj hu
-          exact (scp_vars_le h hon hP0 hP hm).1
-      · split_ifs at hu with hon
-        · obtain rfl := Option.some.inj hu
-          exact (scp_vars_le h hon hP0 hP hm).2.1
-      · split_ifs at hu with hon
-        · obtain rfl := Option.some.inj hu
-          exact (scp_vars_le h hon hP0 hP hm).2.2
-      · split_ifs at hu with hon
-        · obtain rfl := Option.some.inj hu
-          exact (cs_vars_le h hon hZ0 hZ hm).1
-      · split_ifs at hu with hon
-        · obtain rfl := Option.some.inj hu
-          exact (cs_vars_le h hon hZ0 hZ hm).2.1
-      · split_ifs at hu with hon
-        · obtain rfl := Option.some.inj hu
-          exact (cs_vars_le h hon hZ0 hZ hm).2.2
-      · split_ifs at hu with hc
-        · obtain rfl := Option.some.inj hu
-          simp only [Bool.and_eq_true] at hc
-          exact (meat_vars_le h hc.1 hc.2 hM0 hM hm).1
-      · split_ifs at hu with hc
-        · obtain rfl := Option.some.inj hu
-          simp only [Bool.and_eq_true] at hc
-          exact (meat_vars_le h hc.1 hc.2 hM0 hM hm).2.1
-      · -- meatEaten
-        split_ifs at hu with hoff hs
-        · obtain rfl := Option.some.inj hu
-          have hon : i.addMeat = true := by simpa using hoff
-          exact (meat_vars_le h hon hs hM0 hM hm).2.2
-        · obtain rfl := Option.some.inj hu
-          have hon : i.addMeat = true := by simpa using hoff
-          have hs' : i.storeBetweenYears = false := by simpa using hs
-          exact meatEaten_le_slaughtered h hon hs' hM0 hM hm
-      · split_ifs at hu with hon
-        · obtain rfl := Option.some.inj hu
-          exact (crop_vars_le h hon hC0 hC hm).1
-      · split_ifs at hu with hon
-        · obtain rfl := Option.some.inj hu
-          exact (crop_vars_le h hon hC0 hC hm).2.1
-      · split_ifs at hu with hon
-        · obtain rfl := Option.some.inj hu
-          exact (crop_vars_le h hon hC0 hC hm).2.2.1
-      · split_ifs at hu with hon
-        · obtain rfl := Option.some.inj hu
-          exact (crop_vars_le h hon hC0 hC hm).2.2.2.1
-      · split_ifs at hu with hon
-        · obtain rfl := Option.some.inj hu
-          exact (crop_vars_le h hon hC0 hC hm).2.2.2.2
-      · -- swWet
-        split_ifs at hu with hon
-        · obtain rfl := Option.some.inj hu
-          exact (seaweed_bounds h hon hm).2.1
-      · split_ifs at hu with hc
-        · obtain rfl := Option.some.inj hu
-          simp only [Bool.and_eq_true, decide_eq_true_eq] at hc
-          obtain ⟨hon, rfl⟩ := hc
-          exact (seaweed_month_zero h hon hm).2.2.1.le
-      · split_ifs at hu with hc
-        · obtain rfl := Option.some.inj hu
-          simp only [Bool.and_eq_true, decide_eq_true_eq] at hc
-          obtain ⟨hon, rfl⟩ := hc
-          exact (seaweed_month_zero h hon hm).2.2.2.1.le
-      · split_ifs at hu with hc
-        · obtain rfl := Option.some.inj hu
-          simp only [Bool.and_eq_true, decide_eq_true_eq] at hc
-          obtain ⟨hon, rfl⟩ := hc
-          exact (seaweed_month_zero h hon hm).2.2.2.2.le
-      · -- usedArea
-        split_ifs at hu with hon
-        · obtain rfl := Option.some.inj hu
-          exact (seaweed_bounds h hon hm).2.2.2
-      · -- consumedKcals
-        simp only [reduceCtorEq] at hu
+      by_cases hk : k = .consumedKcals
+      · subst hk
+        cases kind with
+        | toHumans => exact consumedCap_valid i x hw h m hm u hu
+        | toAnimals => simp only [reduceCtorEq] at hu
+      · have : capOf i k m = some u := by
+          cases k <;> first | exact absurd rfl hk | exact hu
+        exact capOf_valid i kind x hw h k m hm u this
+
+/-- the Boolean the driver evaluates is `WellFormed` -/
+theorem wellFormedB_iff (i : Inp K) : wellFormedB i = true ↔ WellFormed i := by
+  unfold wellFormedB WellFormed
+  simp only [Bool.and_eq_true, decide_eq_true_eq, List.all_eq_true, List.mem_range, and_assoc]
 
 end Allfed.Proofs.Certificate
